@@ -1,7 +1,15 @@
 (* C14 — ordinary prose passes through unchanged.
    Model: the whole pipeline (Model/Block.v, Inline.v, CoreTokens.v, Build.v, HtmlRenderer.v).
 
-   PARTIAL.  (a) Unbounded: for the block-start patterns regenerated from /repo, a line whose
+   (0) Unbounded, whole pipeline: every line that contains none of the 14 trigger characters
+   \ * _ [ ] ! ` ~ < newline $ & { | , begins with a character that cannot open a block and does not
+   end in white space is rendered as <p> + that text, HTML-escaped + </p> - for every token
+   configuration that is modelled (C14_plain_line_passes_through).  This is the part of the
+   property that needs no case analysis on neighbours; what remains PARTIAL is the class of
+   paragraphs in which trigger characters DO occur in inert positions (isolated *, intraword _,
+   unpaired brackets, & without a reference, several lines).
+
+   PARTIAL for that class.  (a) Unbounded: for the block-start patterns regenerated from /repo, a line whose
    first character is not a marker character cannot start any block kind other than a
    paragraph or a table (a table needs a delimiter row as its second line), and the ASCII
    marker characters are exactly white space # * + - 0-9 < > [ _ ` ~ — so '.', ')' and
@@ -11,8 +19,8 @@
    <p> + escaped text + </p>.  The 143-token vocabulary and 1-4 lines are decided on the
    implementation by the oracle. *)
 From Coq Require Import ZArith List Bool.
-From Mistletoe Require Import Base.Sx Base.PyStr Base.PyText Gen.GenConfig Model.CoreTokens Model.Block Model.HtmlRenderer Model.Parser
-     Proofs.Laws Proofs.Prose Proofs.ProseP.
+From Mistletoe Require Import Base.Sx Base.PyStr Base.PyText Gen.GenConfig Model.Tree Model.CoreTokens Model.Block Model.HtmlRenderer Model.Parser
+     Proofs.Laws Proofs.Prose Proofs.ProseP Proofs.PlainProse.
 Import ListNotations.
 Local Open Scope Z_scope.
 
@@ -43,3 +51,22 @@ Theorem C14_inert_predicate_is_not_vacuous :
   inert_text [ $"a *b* c" ] = false /\ inert_text [ $"[ a ]" ] = false /\ inert_text [ $"# a" ] = false.
 Proof. exact inert_counts. Qed.
 Print Assumptions C14_inert_predicate_is_not_vacuous.
+
+(* the 14 trigger characters, the plain lines, and the theorem through block phase, inline phase and renderer *)
+Theorem C14_plain_line_passes_through : forall cfg o l,
+  plain_line l -> quiet_config cfg = true ->
+  render_html o (fst (fst (parse_lines cfg [l ++ [10]]))) = $"<p>" ++ escape_html_text o l ++ $"</p>" ++ [10].
+Proof. exact plain_line_renders. Qed.
+Print Assumptions C14_plain_line_passes_through.
+
+Theorem C14_plain_line_parses : forall cfg l,
+  plain_line l -> quiet_config cfg = true -> parse_lines cfg [l ++ [10]] = (Document [Paragraph [RawText l]], [], [1]).
+Proof. exact plain_line_parses. Qed.
+Print Assumptions C14_plain_line_parses.
+
+Theorem C14_plain_hypotheses_hold :
+  forallb quiet_config [cfg_html; cfg_html_nohtml; cfg_markdown; cfg_latex; cfg_mathjax; cfg_default] = true /\
+  plain_line ($"e.g. 2 + 2 = 4 (nearly) #tag 50% @you a-b a.b) -1 :-") /\
+  plain_line ($". x") /\ plain_line ($") x") /\ ~ plain_line ($"1. x") /\ ~ plain_line ($"a *b*").
+Proof. split; [exact configs_quiet|exact a_plain_line]. Qed.
+Print Assumptions C14_plain_hypotheses_hold.
